@@ -11,6 +11,7 @@ import (
 	"encoding/binary"
 	"encoding/json"
 	"errors"
+	"flag"
 	"fmt"
 	"os"
 	"path/filepath"
@@ -451,6 +452,58 @@ func checkAcks(bt *jrnkit.Built, kc kase) {
 	}
 }
 
+// checkWriter: conformance of the real journal writer with the model state machine, commit by
+// commit: same writer operations from the same pre-state => same bytes written to the file, same
+// observable state (off, buffered, un-synced, indexed, novel count, root, batch crc) afterwards.
+func checkWriter(bt *jrnkit.Built, kc kase) {
+	B := effB(bt.Hist)
+	for i, a := range bt.Acks {
+		pre := a.PreState
+		root := "-"
+		if !pre.CurrentRoot.IsEmpty() {
+			root = hx.Hex(pre.CurrentRoot[:])
+		}
+		mx := a.State.MaxNovel
+		if pre.BufLen != 0 {
+			e.Rep.Disagree(kc, fmt.Sprintf("commit %d starts with %d buffered bytes", i, pre.BufLen), "0", "writer pre-state")
+			continue
+		}
+		m.Ask(fmt.Sprintf("winit %d %d %d %d %d %d %s %d %d", B, mx, uint64(nbs.VerifJrnMaybeSyncThreshold), pre.Off, pre.Indexed, pre.Novel, root, a.Clock, pre.BatchCrc))
+		var last string
+		for _, op := range a.WOps {
+			if op.Bump > 0 {
+				m.Ask(fmt.Sprintf("wbump %d", op.Bump))
+			}
+			if op.Root {
+				last = m.Ask("wcommit " + hx.Hex(op.Addr[:]))
+			} else {
+				last = m.Ask(fmt.Sprintf("wchunk %s %s", hx.Hex(op.Addr[:]), hx.Hex(op.Payload)))
+			}
+			if strings.Contains(last, "W") {
+				e.Rep.Hit("writer:flush-events")
+			}
+			if strings.Contains(last, "|") && strings.Contains(strings.SplitN(last, "|", 2)[1], "M") {
+				e.Rep.Hit("writer:index-meta")
+			}
+		}
+		st := a.State
+		r2 := "-"
+		if !st.CurrentRoot.IsEmpty() {
+			r2 = hx.Hex(st.CurrentRoot[:])
+		}
+		impl := fmt.Sprintf("st %d %d %d %d %d %s %d", st.Off, st.BufLen, st.Unsyncd, st.Indexed, st.Novel, r2, st.BatchCrc)
+		model := strings.TrimSpace(strings.SplitN(last, "|", 2)[0])
+		e.Rep.Count(fmt.Sprintf("writer %d %s", i, impl), true)
+		if impl != model {
+			e.Rep.Disagree(kc, impl, trunc(last), fmt.Sprintf("journal writer state after commit %d", i))
+		}
+		written := m.Ask("wwritten")
+		if int(a.Off) <= len(bt.File) && written != hx.Hex(bt.File[pre.Off:a.Off]) {
+			e.Rep.Disagree(kc, "bytes "+trunc(hx.Hex(bt.File[pre.Off:a.Off])), "bytes "+trunc(written), fmt.Sprintf("bytes written to the journal by commit %d", i))
+		}
+	}
+}
+
 func runHistory(h jrnkit.History, only *imgSpec, hr *hx.Rng, idx int) {
 	dir := filepath.Join(fastScratch(), fmt.Sprintf("h%d", idx))
 	kc := kase{Hist: h}
@@ -482,6 +535,7 @@ func runHistory(h jrnkit.History, only *imgSpec, hr *hx.Rng, idx int) {
 		e.Rep.Hit("history:self-commit-root-records")
 	}
 	checkAcks(bt, kc)
+	checkWriter(bt, kc)
 	if r := m.Ask("load " + hx.Hex(bt.File)); !strings.HasPrefix(r, "ok") {
 		e.Rep.Disagree(kc, "load", r, "model load")
 		return
@@ -685,6 +739,17 @@ func fastScratch() string {
 }
 
 func main() {
+	worker := flag.Bool("worker", false, "internal: write one history with the real store and exit (run under strace)")
+	workdir := flag.String("workdir", "", "internal: worker directory")
+	histJSON := flag.String("hist", "", "internal: worker history (JSON)")
+	for _, a := range os.Args[1:] {
+		if a == "-worker" {
+			flag.Parse()
+			_ = worker
+			workerMain(*workdir, *histJSON)
+			return
+		}
+	}
 	e = hx.Init("journalcrash", "C03")
 	defer e.Finish()
 	defer func() {
@@ -715,13 +780,16 @@ func main() {
 	}
 	nbs.VerifJrnSetBuffSize(oldB)
 	hrng := e.Rng.Fork()
-	nh := e.N(9, 80)
+	nh := e.N(8, 80)
 	for i := 0; i < nh; i++ {
 		hr := hrng.Fork()
 		h := genHistory(hr, uint64(i+1)*100000+e.Seed*1000000007)
 		t0 := time.Now()
 		ev0 := e.Rep.Evaluations
 		runHistory(h, nil, hr, i)
+		if i < e.N(3, 30) {
+			straceCheck(h, i)
+		}
 		if os.Getenv("VERIF_DEBUG") != "" {
 			fmt.Fprintf(os.Stderr, "history %d: B=%d commits=%d images=%d %.1fs\n", i, effB(h), len(h.Commits), e.Rep.Evaluations-ev0, time.Since(t0).Seconds())
 		}
